@@ -119,6 +119,16 @@ CHECKS = {
             "selects, under AndGroup and OrGroup.",
             "The property statement's precedence is the authority over the gloss in querylang.rst. Differences caused by the two recorded And.normalize() findings are attributed only when the un-normalized parse is right and the structural trigger is present. An atheris campaign was not built (C-level regex taggers give no coverage gradient; see DESIGN.md).",
             "DESIGN.md section 2 C16"),
+    "C17": ("exploration",
+            "property-based testing (Hypothesis) over texts x ~55 analyzer/filter configurations x field types x fragmenters, with index/query/highlighter agreement as a round-trip oracle and shipped formatters read back through their inverse (HTML parser) against a sentinel formatter",
+            "findable: generated texts (several scripts, case, accents, numbers, URLs/e-mails, stop words, 1-char and 100-char tokens, markup-significant characters, arbitrary unicode) "
+            "are indexed under every shipped analyzer (per language), tokenizer and filter (charset folding, n-grams, biword, shingle, intra-word +/- merging, MultiFilter index/query "
+            "pairs, compound words, Tee, metaphone, substitution, path, delimited attribute) in TEXT +/- chars, KEYWORD, ID, NGRAM and NGRAMWORDS fields. Every index-time token, the "
+            "conjunction of the query-time tokens, each parsed word, every phrase of consecutive index positions and every parsed quoted slice must find the document; positions never "
+            "decrease; offsets delimit the token's source; sentinel-formatted highlights are substrings whose marked spans are matched terms, and Html/Null/Uppercase output read back "
+            "must equal the sentinel output.",
+            "GenshiFormatter and PyStemmerFilter need third-party packages that are not installed and are not exercised. DelimitedAttributeFilter input whose attribute text is not a number is invalid input and excluded.",
+            "DESIGN.md section 2 C17"),
     "C19": ("exploration",
             "exhaustive enumeration over small alphabets (sharded) + property-based testing (Hypothesis) against textbook edit-distance references",
             "small: every query word up to length 5 over {a,b} / 4 over {a,b,c} x d in 0..3 x prefix 0..4 against full and partial lexicons, on a one-segment (automaton) and a "
